@@ -113,7 +113,7 @@ def _leak_ro(thorough):
 
 def _dro_specs_a():
     out = []
-    for k in ('bnd', 'lin', 'n1', 'n2', 'p3', 'pow', 'exp', 'kl'):
+    for k in ('bnd', 'lin', 'n1', 'n2', 'p3', 'pow', 'exp', 'ent'):
         out.append(('supp:' + k, [{'op': 'supp', 'scen': 'all', 'set': [k, 's']}]))
     for k in ('n2', 'p3'):
         out.append(('supp1:' + k, [{'op': 'supp', 'scen': 0, 'set': ['bnd', 's']},
@@ -159,6 +159,8 @@ def _with(evs, **kw):
 def _leak_dro(thorough):
     specs_a = _dro_specs_a()
     specs_b = _dro_specs_b()
+    if not thorough:
+        specs_b = [sb for sb in specs_b if sb[0] in ('supp:bnd', 'supp:n2', 'supp1:lin', 'expt:bnd', 'prob:pbox')]
     for na, da in specs_a:
         for ra in ('decoy', 'rc', 'ec'):
             if ra == 'decoy':
@@ -209,6 +211,7 @@ def _leak_dro(thorough):
 RO_FULL = ['lin', 'bnd', 'soc', 'ipc', 'exp', 'rown', 'rdef', 'late', 'adapt']
 RO_CORE = ['exp', 'rdef', 'late', 'adapt']
 DRO_SMALL = ['lin', 'soc', 'rob', 'ecn', 'late', 'evt']
+DRO_QUICK = ['lin', 'rob', 'ecn', 'late', 'evt']
 OPS_ALL = ['P', 'D', 'S', 'Sd', 'Q', 'G']
 OPS_CORE = ['P', 'D', 'S', 'Q', 'G']
 OPS_DRO = ['P', 'D', 'S', 'G']
@@ -235,7 +238,7 @@ def _words(decl, ops, depth):
 
 def _seq_cases(thorough):
     plans = [('ro', RO_FULL, OPS_ALL, 4 if thorough else 3), ('ro', RO_CORE, OPS_CORE, 5 if thorough else 4),
-             ('dro', DRO_SMALL, OPS_DRO, 4 if thorough else 3)]
+             ('dro', DRO_SMALL if thorough else DRO_QUICK, OPS_DRO, 4 if thorough else 3)]
     for fe, decl, ops, depth in plans:
         for w in _words(decl, ops, depth):
             yield {'family': 'seq', 'fe': fe, 'word': w}
@@ -254,7 +257,7 @@ GRAPH_T = [('ro', ['lin', 'bnd', 'exp', 'rdef', 'late', 'adapt'], ['P', 'D', 'S'
 def _graph_cases(thorough):
     for fe, decl, ops in GRAPH_Q + (GRAPH_T if thorough else []):
         yield {'family': 'graph', 'fe': fe, 'decl': decl, 'ops': ops,
-               'budget_s': 200.0 if thorough else 70.0}
+               'max_transitions': 40000 if thorough else 8000}
 
 
 def _order_cases(thorough):
@@ -263,6 +266,8 @@ def _order_cases(thorough):
         for ext in O.linear_extensions(fe):
             for k in ((0, 1, 2) if thorough else (0, 1)):
                 for o in O.with_noise(fe, ext, k):
+                    if not thorough and fe == 'dro' and 'ND' in o:
+                        continue
                     yield {'family': 'order', 'fe': fe, 'order': o}
 
 
